@@ -1,7 +1,46 @@
 //! Conformance harness binding the TLA+ specification in /verif/spec to the real code in /repo.
+mod game;
 mod records;
 mod replay;
+mod trace;
+mod transient;
 mod util;
+
+use std::alloc::{GlobalAlloc, Layout, System};
+
+/// The code under test creates a `MoveGenerator::new()` (a hash table sized for 10^8 entries:
+/// ~134 MB of freshly touched pages) per root move of every search and count; in this VM fresh
+/// page faults dominate the run time.  Big blocks are recycled instead of being returned to the
+/// OS, so their pages stay resident.  This changes nothing the code under test can observe.
+struct PoolAlloc;
+const BIG: usize = 32 << 20;
+static POOL: std::sync::Mutex<Vec<(usize, usize, usize)>> = std::sync::Mutex::new(Vec::new());
+unsafe impl GlobalAlloc for PoolAlloc {
+    unsafe fn alloc(&self, l: Layout) -> *mut u8 {
+        if l.size() >= BIG {
+            if let Ok(mut g) = POOL.lock() {
+                if let Some(i) = g.iter().position(|&(_, sz, al)| sz == l.size() && al == l.align()) {
+                    let (p, _, _) = g.swap_remove(i);
+                    return p as *mut u8;
+                }
+            }
+        }
+        System.alloc(l)
+    }
+    unsafe fn dealloc(&self, p: *mut u8, l: Layout) {
+        if l.size() >= BIG {
+            if let Ok(mut g) = POOL.lock() {
+                if g.len() < 96 {
+                    g.push((p as usize, l.size(), l.align()));
+                    return;
+                }
+            }
+        }
+        System.dealloc(p, l)
+    }
+}
+#[global_allocator]
+static GLOBAL: PoolAlloc = PoolAlloc;
 
 fn main() {
     let args: Vec<String> = std::env::args().skip(1).collect();
@@ -15,6 +54,9 @@ fn main() {
     match args[0].as_str() {
         "replay" => replay::main(rest),
         "record-games" => records::main(rest),
+        "record-trace" => trace::main(rest),
+        "record-game" => game::main(rest),
+        "record-transient" => transient::main(rest),
         other => {
             eprintln!("unknown subcommand {}", other);
             std::process::exit(2);
